@@ -12,7 +12,7 @@ structure S where
   chain : Chain
 
 def S.init : S :=
-  ⟨Env.empty, ⟨0, 0, 0, 0, false, Gen.Proto.canonicalTxEnforced, Gen.Proto.canonicalKeyEnforced, [], [], []⟩⟩
+  ⟨Env.empty, ⟨0, 0, 0, 0, false, Gen.Proto.canonicalTxEnforced, Gen.Proto.canonicalKeyEnforced, Gen.Proto.multisigPaddingEnforced, [], [], []⟩⟩
 
 def hexes (ws : List String) : Option (List Bytes) := ws.mapM ofHex
 
